@@ -182,8 +182,6 @@ Proof.
 Qed.
 
 (** * the repaired try_allocate never exceeds the hard limit *)
-Definition safe_op (op : bop) : bool :=
-  match op with BAlloc _ s => 0 <=? s | BRelease _ => true | _ => false end.
 Definition nonneg_mem (m : list (Z * Z)) : Prop := Forall (fun kv => 0 <= snd kv) m.
 Definition thread_safe (th : bthread) : Prop :=
   match t_op th with Some (op, _) => safe_op op = true | None => True end /\
@@ -249,8 +247,6 @@ Proof.
   constructor; simpl; auto. apply Forall_upd_nth; auto.
 Qed.
 
-Definition safe_progs (progs : list (list bop)) : bool := forallb (forallb safe_op) progs.
-
 Lemma lim_inv_init : forall hard progs, 0 <= hard -> safe_progs progs = true -> lim_inv (binit hard progs).
 Proof.
   intros hard progs Hh Hs. constructor; simpl; auto.
@@ -294,8 +290,6 @@ Proof.
 Qed.
 
 (** * refutations of the two load-then-add paths *)
-Definition k_buf (progs : list (list bop)) : bool := negb (safe_progs progs).
-
 Lemma buffer_over_limit_pre_refuted_l :
   exists hard progs sched, 0 <= hard /\ progs = [[BAllocPre 0 6]; [BAllocPre 1 6]] /\ sched = [0; 1; 0; 1]%nat /\
     b_alloc (sh (brun sched (binit hard progs))) > hard.
